@@ -5,6 +5,7 @@ import (
 	"encoding/json"
 	"fmt"
 	"math/bits"
+	"os"
 	"sort"
 	"time"
 
@@ -536,6 +537,10 @@ func runC01(ctx *core.Ctx, pool *par.Pool) {
 		ctx.SetBudget(15 * time.Minute)
 	}
 	runs := plan(cfgs, []seed{seedWAL, seedFrag, seedTail}, depth, seedDepth)
+	if os.Getenv("VERIF_C01_ONLY") == "resize" { // debugging aid: only the pass over resizing opens
+		runs = nil
+		ctx.Cap("VERIF_C01_ONLY=resize: transaction histories skipped")
+	}
 	var total xstate.Stats
 	images, distinct, nontrivial, boundaries, transitionsTested, capped := 0, 0, 0, 0, 0, 0
 	hugeHistories := 0
@@ -544,7 +549,7 @@ func runC01(ctx *core.Ctx, pool *par.Pool) {
 		cfg := run.Cfg
 		sigs := map[string]bool{}
 		var tasks []CrashTask
-		share := ctx.FairShare(len(runs), 1)
+		share := ctx.FairShare(len(runs), 0.85) // 15% of the budget stays reserved for the resizing opens below
 		endRun := ctx.Phase(share)
 		endBFS := ctx.Phase(share * 4 / 10)
 		st := xstate.BFS(ctx, pool, xstate.Spec{Cfg: cfg, Seed: run.Seed.Ops, Alphabet: crashAlphabet(ctx.Quick()), MaxDepth: run.Depth, Flags: []string{"iolog"},
@@ -640,21 +645,23 @@ func runC01(ctx *core.Ctx, pool *par.Pool) {
 	// every history "seed, [resize,] resize" on files with free tails, fragmented free lists,
 	// overwrite mappings, full files and files living in their overflow area
 	resizeTasks, resizeTested := 0, 0
+	ctx.Unshare()
 	{
 		grown := seed{"grown-free-tail", []O{{K: pagedrv.OReopenWith, A: 128}, {K: pagedrv.OBegin}, {K: pagedrv.OAlloc, A: 100}, {K: pagedrv.OWriteAll}, {K: pagedrv.OCommit},
 			{K: pagedrv.OBegin}, {K: pagedrv.OFreeRun, A: 40, B: 60}, {K: pagedrv.OCommit}}}
 		rzAlphabet := []O{{K: pagedrv.OReopenWith, A: 64}, {K: pagedrv.OReopenWith, A: 96}, {K: pagedrv.OReopenWith, A: 128}, {K: pagedrv.OReopenWith, A: 0},
 			{K: pagedrv.OReopenWith, A: 128, B: 1}, {K: pagedrv.OReopenWith, A: 64, B: 1}}
-		rzRuns := []bfsRun{{pagedrv.CfgA, seedTail, 1}, {pagedrv.CfgB, grown, 1}, {pagedrv.CfgA, seedOverflow, 1}, {pagedrv.CfgC, seedFrag, 1}, {pagedrv.CfgB, seedWAL, 1}}
+		rzDepth := 2
 		if !ctx.Quick() {
-			rzRuns = nil
-			for _, c := range []pagedrv.Cfg{pagedrv.CfgA, pagedrv.CfgB, pagedrv.CfgC} {
-				for _, sd := range []seed{seedEmpty, seedTail, seedFrag, seedWAL, seedFull, seedOverflow, seedOverflowPartial, grown} {
-					if (sd.Name == "full" || sd.Name == "overflow-used" || sd.Name == "overflow-partly-released") && c.MaxPages == 0 {
-						continue
-					}
-					rzRuns = append(rzRuns, bfsRun{c, sd, 2})
+			rzDepth = 3
+		}
+		var rzRuns []bfsRun
+		for _, c := range []pagedrv.Cfg{pagedrv.CfgA, pagedrv.CfgB, pagedrv.CfgC} {
+			for _, sd := range []seed{seedEmpty, seedTail, seedFrag, seedWAL, seedFull, seedOverflow, seedOverflowPartial, grown} {
+				if (sd.Name == "full" || sd.Name == "overflow-used" || sd.Name == "overflow-partly-released") && c.MaxPages == 0 {
+					continue
 				}
+				rzRuns = append(rzRuns, bfsRun{c, sd, rzDepth})
 			}
 		}
 		var tasks []CrashTask
